@@ -178,9 +178,10 @@ func (pc *pCtx) d1Delegates(only string) {
 
 func (pc *pCtx) delegateObls(name string, d *delegInfo) {
 	fn := d.fn
-	props := []string{"C04"}
 	pos := pc.pos(d.call.Pos())
 	calleeName := d.callee.Name()
+	props := pc.delegProps(name, calleeName, fn.Name())
+	pc.curDelegProps = props
 	used := map[*ssa.Parameter]bool{}
 	type fwd struct {
 		p   *ssa.Parameter
@@ -272,7 +273,7 @@ func delegParamIndex(fn *ssa.Function, p *ssa.Parameter) int {
 
 // adapterObls: the adapter lambda `ad` (bindings: cells of parameters of the variant) is a pure relay to one user function.
 func (pc *pCtx) adapterObls(name string, d *delegInfo, ad *ssa.Function, bindings []ssa.Value, k int, used map[*ssa.Parameter]bool) {
-	props := []string{"C04"}
+	props := pc.curDelegProps
 	base := fmt.Sprintf("D1/%s/adapter#%d", name, k)
 	pos := pc.pos(ad.Pos())
 	// which parameter of the variant each free variable stands for
@@ -400,5 +401,21 @@ func (pc *pCtx) adapterObls(name string, d *delegInfo, ad *ssa.Function, binding
 			resOK, rnote = false, "a result of the user function is dropped"
 		}
 	}
-	pc.add(append(props, "C09"), base+"/results-faithful", cRes, resOK, rnote, pos)
+	pc.add(append(append([]string{}, props...), "C09"), base+"/results-faithful", cRes, resOK, rnote, pos)
+}
+
+// delegProps: a variant carries the properties its canonical operator's contract decides (C04 always): a wrong delegation
+// breaks them for the variant.
+func (pc *pCtx) delegProps(name, callee, self string) []string {
+	set := map[string]bool{"C04": true}
+	prefix := ""
+	if i := strings.LastIndex(name, "."); i >= 0 {
+		prefix = name[:i+1]
+	}
+	for _, n := range []string{prefix + callee, prefix + delegStem(self) + "IWithContext"} {
+		for _, p := range pc.opProps[n] {
+			set[p] = true
+		}
+	}
+	return sortedStrs(set)
 }
